@@ -4,8 +4,8 @@ ENTRY = {
         technique="parked-writer experiment over the matrix read entry point x writer stage x generated router options, with a goroutine-dump verdict, plus a block-profile invariant under a busy writer stream",
         level_text="A write transaction is parked (on a channel) just after opening, after uncommitted writes, inside Updates, after Txn.Iter and after Txn.Snapshot; while it is "
                    "parked every exported read entry point (ServeHTTP for each outcome class, Lookup, Reverse, Has, Route, Len, Stats, NewRoute, Iter.Methods/All/Prefix/Routes/Reverse, "
-                   "View, read-only Txn and Snapshot methods) runs in its own goroutine and must complete; a second writer must not complete before release and a writer must "
-                   "complete while a read-only transaction and a suspended iterator are open. Options are generated (trailing-slash modes, 405/OPTIONS, resolver, middleware, hostnames). "
+                   "View, read-only Txn and Snapshot methods) runs in its own goroutine and must complete; a second writer must not complete before release, and writes of six kinds "
+                   "(growing, replacing, shrinking, truncating, transactional) must complete while a View callback is parked mid-way, a read-only transaction is open and an iterator is suspended. Options are generated (trailing-slash modes, 405/OPTIONS, resolver, middleware, hostnames). "
                    "With the block profile at rate 1, readers looping against a committing writer must leave no record of a wait called directly from a fox frame.",
         level_note="The property's clause about every call path statically reachable from the read entry points is a static reachability question that generated inputs cannot decide; "
                    "covered instead: every exported read entry point x outcome class x writer stage. A read that does not finish is only a violation if the goroutine dump shows it "
